@@ -974,6 +974,9 @@ pub fn oracle_c01(line: &str) -> String {
         Ok(Err(_)) => "pass".into(), // "either fails with an error …"
         Ok(Ok(bytes)) => match std::panic::catch_unwind(|| GdsLibrary::from_bytes(&bytes)) {
             Err(_) => "fail reader panicked on written bytes".into(),
+            // the destination is any `Write`: one that takes only a few bytes per call must receive the same stream
+            _ if { let k = 1 + bytes.len() % 7; crate::gdsio::write_bytes_chunky(&lib, k).ok().as_ref() != Some(&bytes) } =>
+                format!("fail a destination that accepts {} bytes per write call received a different stream than a Vec", 1 + bytes.len() % 7),
             Ok(Err(e)) => format!("fail written bytes do not read back: {}", &format!("{:?}", e)[..60.min(format!("{:?}", e).len())]),
             Ok(Ok(lib2)) => {
                 if lib2 == lib {
@@ -984,6 +987,22 @@ pub fn oracle_c01(line: &str) -> String {
             }
         },
     }
+}
+/// `save` to a path that already holds a longer file: the file must end up holding exactly the stream
+fn save_over_existing(lib: &GdsLibrary, bytes: &[u8]) -> Option<String> {
+    if bytes.len() % 8 != 0 { return None; } // a sample of the cases: this one touches the disk
+    let dir = std::env::temp_dir().join(format!("l21h-c02-{}", std::process::id()));
+    let _ = std::fs::create_dir_all(&dir);
+    let path = dir.join("over.gds");
+    let r = (|| -> Result<Option<String>, String> {
+        std::fs::write(&path, vec![0xEEu8; bytes.len() + 64]).map_err(|e| e.to_string())?;
+        lib.save(&path).map_err(|e| format!("{:?}", e))?;
+        let got = std::fs::read(&path).map_err(|e| e.to_string())?;
+        Ok(if got == bytes { None } else { Some(format!("fail save() over an existing longer file leaves {} bytes, the stream has {}", got.len(), bytes.len())) })
+    })();
+    let _ = std::fs::remove_file(&path);
+    let _ = std::fs::remove_dir(&dir);
+    match r { Ok(m) => m, Err(e) => Some(format!("fail save() to an existing file failed: {}", &e[..e.len().min(80)])) }
 }
 pub fn oracle_c02(line: &str) -> String {
     let p = match Sexp::parse_all(line) {
@@ -998,10 +1017,16 @@ pub fn oracle_c02(line: &str) -> String {
         Ok(b) => b,
         Err(_) => return "na".into(), // property quantifies over libraries for which writing succeeds
     };
+    // the destination is any `Write`: a sink that takes only a few bytes per call gets the same stream
+    let k = 1 + bytes.len() % 5;
+    if crate::gdsio::write_bytes_chunky(&lib, k).ok().as_ref() != Some(&bytes) {
+        return format!("fail a destination that accepts {} bytes per write call received a different (malformed) stream", k);
+    }
     match spec_decode(&bytes) {
         Err(e) => format!("fail not a well-formed GDSII stream: {}", e),
         Ok(s) => {
             if s == lib_s(&canon_zero(&lib)) {
+                if let Some(m) = save_over_existing(&lib, &bytes) { return m; }
                 "pass".into()
             } else {
                 "fail independent decoder recovers different content".into()
